@@ -1,5 +1,6 @@
 import DadiVerif.Lemmas.Het
 import DadiVerif.Lemmas.MeanFreq
+import DadiVerif.Lemmas.Consistency
 import DadiVerif.Generated.Phi1D
 import DadiVerif.Lemmas.Theory
 import DadiVerif.Lemmas.Theory2
@@ -86,6 +87,71 @@ theorem C01_mean_step_bc (xs : Array ℚ) (N : ℕ) (hN : xs.size = N + 2)
   rw [if_neg (by omega), if_pos ⟨trivial, by simp, le_refl _⟩]
   simp only [C.bcLast, show N + 2 - 2 = N by omega, zero_add]
   ring
+
+/-! ### The two halves of the convergence argument that ARE provable: stability and consistency -/
+
+/-- **ℓ¹-stability of one implicit step**: for the line of any kernel under the M-matrix condition (non-negative flux coefficients —
+    unconditional for the neutral one-population step, `C01_stability_neutral`) the step is a contraction in the trapezoid-weighted
+    ℓ¹ norm Σ_j w_j |φ_j|, for densities of any sign: errors are never amplified, whatever dt. -/
+theorem C01_stability_l1 : type_of% @Line.step_l1_contraction := @Line.step_l1_contraction
+
+/-- …instantiated for the neutral one-population kernel line (any ν > 0, β > 0, dt > 0, grid inside [0,1], either delj setting) -/
+theorem C01_stability_neutral (xs : Array ℚ) (hg : GridOk xs) (hx0 : 0 ≤ xs.getD 0 0) (hx1 : xs.getD (xs.size - 1) 0 ≤ 1)
+    (P : AxisParams) (hgam : P.gamma = 0) (hm : P.ms = []) (hnu : 0 < P.nu) (hβ : ∀ β, P.beta = some β → 0 < β)
+    (use : Bool) (eps : ℕ → ℚ) (dt : ℚ) (hdt : 0 < dt) (φ : ℕ → ℚ) :
+    let L := axisLine xs P [] use eps dt
+    L.l1 (L.stepFn φ) ≤ L.l1 φ := by
+  intro L
+  have hm' : ∀ m ∈ P.ms, m = 0 := by rw [hm]; intro m h; cases h
+  have hL : L = mkLine xs P.V (fun _ => 0) (fun _ => 1/2) P.nu (([] : List ℚ).all (· == 0)) (([] : List ℚ).all (· == 1)) dt :=
+    axisLine_nomig xs P [] use eps dt hgam hm'
+  have hV : ∀ i, i < xs.size → 0 ≤ P.V (xs.getD i 0) := by
+    intro i hi
+    have := hg.bounds i hi
+    exact P.V_nonneg hnu hβ _ (by linarith) (by linarith)
+  have hpe : ∀ i, i + 1 < xs.size →
+      0 ≤ (fun _ : ℚ => (0:ℚ)) (1/2 * (xs.getD (i+1) 0 + xs.getD i 0)) * (fun _ : ℕ => (1/2 : ℚ)) i
+            + P.V (xs.getD i 0) / (2 * (xs.getD (i+1) 0 - xs.getD i 0))
+      ∧ 0 ≤ -(fun _ : ℚ => (0:ℚ)) (1/2 * (xs.getD (i+1) 0 + xs.getD i 0)) * (1 - (fun _ : ℕ => (1/2 : ℚ)) i)
+            + P.V (xs.getD (i+1) 0) / (2 * (xs.getD (i+1) 0 - xs.getD i 0)) := by
+    intro i hi
+    have hdx : 0 < xs.getD (i+1) 0 - xs.getD i 0 := by have := hg.2 i hi; linarith
+    have h1 := hV i (by omega)
+    have h2 := hV (i+1) hi
+    constructor
+    · have : 0 ≤ P.V (xs.getD i 0) / (2 * (xs.getD (i+1) 0 - xs.getD i 0)) := div_nonneg h1 (by linarith)
+      simp only []; linarith
+    · have : 0 ≤ P.V (xs.getD (i+1) 0) / (2 * (xs.getD (i+1) 0 - xs.getD i 0)) := div_nonneg h2 (by linarith)
+      simp only []; linarith
+  obtain ⟨hA, hC, hbc⟩ := mkLine_mmatrix xs hg P.V (fun _ => 0) (fun _ => 1/2) P.nu hnu _ _ dt hpe
+  rw [hL]
+  exact Line.step_l1_contraction _ hg.1 (fun j hj => hg.2 j hj) hdt hA hC hbc φ
+
+/-- **Consistency, part 1 — what the scheme discretises**: at every interior node of an arbitrary increasing grid, with δ = ½, the
+    discrete operator of the line the kernels build (generated `atemp`, `ctemp`) is the centred flux difference of Mφ minus the second
+    divided difference of Vφ:  D_j φ = Adv_j φ − [x_{j−1},x_j,x_{j+1}](Vφ). -/
+theorem C01_consistency_operator : type_of% @mkLine_operator := @mkLine_operator
+
+/-- **Consistency, part 2 — the drift term is exact on quadratics**: if Vφ coincides with a quadratic polynomial a + bx + cx² at the
+    three nodes, its second divided difference is c = ½(Vφ)″, on every non-uniform grid (zero truncation error). -/
+theorem C01_consistency_drift : type_of% @divDiff2_quadratic := @divDiff2_quadratic
+
+/-- **Consistency, part 3 — the advective term is exact** for constant M and linear φ, and for linear M and constant φ: it equals
+    (Mφ)′ on every non-uniform grid. -/
+theorem C01_consistency_advection :
+    (∀ (x0 x1 x2 m α β : ℚ), x0 ≠ x2 →
+      (m * ((α + β*x1) + (α + β*x2)) - m * ((α + β*x0) + (α + β*x1))) / (x2 - x0) = m * β)
+    ∧ (∀ (x0 x1 x2 m0 m1 c : ℚ), x0 ≠ x2 →
+      ((m0 + m1 * ((1/2 : ℚ) * (x2 + x1))) * (c + c) - (m0 + m1 * ((1/2 : ℚ) * (x1 + x0))) * (c + c)) / (x2 - x0) = m1 * c) :=
+  ⟨adv_exact_const_lin, adv_exact_lin_const⟩
+
+/-- non-vacuity of `C01_stability_neutral`: the grid {0, 1/4, 1/2, 1}, ν = 2, β = 3 -/
+example : GridOk #[0, 1/4, 1/2, 1] ∧ (0:ℚ) ≤ (#[0, 1/4, 1/2, 1] : Array ℚ).getD 0 0
+    ∧ (#[0, 1/4, 1/2, 1] : Array ℚ).getD ((#[0, 1/4, 1/2, 1] : Array ℚ).size - 1) 0 ≤ 1 := by
+  refine ⟨⟨by decide, ?_⟩, by norm_num, by norm_num⟩
+  intro j hj
+  have : j = 0 ∨ j = 1 ∨ j = 2 := by simp at hj; omega
+  rcases this with rfl | rfl | rfl <;> norm_num
 
 /-- **Mutation influx**: injecting for a time dt adds exactly dt·θ0·(1−x₁)/2 to the heterozygosity
     (generated increment `_inject_mutations_1D`), for every grid. -/
